@@ -7,6 +7,8 @@ CONSTANTS
   AllowRelate = FALSE
   AllowQueryX = FALSE
   AllowSweep = TRUE
+  CopyModes = {}
+  UnregisteredModes = {}
   Hist = FALSE
   PopIdOfNone = FALSE
   StaleRelationIndex = FALSE
